@@ -69,6 +69,22 @@ def kinds_decide(kind):
     return decide
 
 
+def _same_branch(fnode, a, b):
+    """a and b lie in the same innermost if/elif/else body (so a precedes b on every path reaching b)"""
+    par = util.parents_map(fnode)
+
+    def branch(n):
+        cur = n
+        while cur is not None:
+            up = par.get(id(cur))
+            if isinstance(up, ast.If):
+                return (id(up), "body" if cur in up.body else "orelse")
+            cur = up
+        return None
+
+    return branch(a) == branch(b)
+
+
 def structure_rules(chk):
     prog = chk.program
     fi = prog.method(TRANSLATOR, "translate_hierarchy")
@@ -85,7 +101,13 @@ def structure_rules(chk):
                 return has_type
             return None
 
-        outs = Interp(prog, fi, decide=decide).run()
+        def type_sub(it, path, base, idx, node, has_type=has_type):
+            # `structure["__type__"]` used as the membership test (try / except KeyError)
+            if idx == ("const", "__type__"):
+                return [("value", ("sym", "<value of __type__>"))] if has_type else [("raise", exc_value("ext:builtins.KeyError", "no __type__"))]
+            return None
+
+        outs = Interp(prog, fi, decide=decide, sub_hook=type_sub).run()
         chk.count(len(outs))
         for o in outs:
             if o.kind != "return":
@@ -151,6 +173,33 @@ def structure_rules(chk):
             if tpl != [WHERE, ".", kvar]:
                 chk.bad("O19.3", name, "the location of a mapping child is %s, not <current location> + '.' + key" % (show(w) if w else "not passed"), node=fi.node, stmt="where-mapping")
                 ok3 = False
+    # ---------------- the input is not consumed: translation builds new containers
+    PARAM = fi.params()[0]
+    for n in ast.walk(fi.node):
+        hit = None
+        if isinstance(n, (ast.Assign, ast.AugAssign)):
+            for t in n.targets if isinstance(n, ast.Assign) else [n.target]:
+                if isinstance(t, ast.Subscript) and isinstance(t.value, ast.Name) and t.value.id == PARAM:
+                    hit = "%s[...] = ..." % PARAM
+        if isinstance(n, ast.Call) and isinstance(n.func, ast.Attribute) and isinstance(n.func.value, ast.Name) and n.func.value.id == PARAM and n.func.attr in ("append", "extend", "insert", "pop", "clear", "sort", "reverse", "update", "setdefault", "remove", "popitem", "__setitem__", "__delitem__"):
+            hit = "%s.%s(...)" % (PARAM, n.func.attr)
+        if isinstance(n, ast.Delete) and any(isinstance(t, ast.Subscript) and isinstance(t.value, ast.Name) and t.value.id == PARAM for t in n.targets):
+            hit = "del %s[...]" % PARAM
+        if hit:
+            # only a violation while the name still denotes the INPUT (the mapping branch re-binds it to a fresh dict first)
+            rebound_before = any(
+                isinstance(a, ast.Assign) and any(isinstance(t, ast.Name) and t.id == PARAM for t in a.targets) and a.lineno < n.lineno and _same_branch(fi.node, a, n)
+                for a in ast.walk(fi.node)
+            )
+            chk.count()
+            if not rebound_before:
+                chk.bad(
+                    "O19.2",
+                    name,
+                    "the translation writes into its input (%s): a list that is reached twice (a YAML alias, one list shared by two parents, a second translation of the same configuration) has already been consumed, so its factories are not called again and the objects are shared" % hit,
+                    node=n,
+                    stmt="input-mutated %s" % hit,
+                )
     # ---------------- list branch: O19.2, O19.3
     ok2 = True
     outs = Interp(prog, fi, decide=kinds_decide("list")).run()
@@ -334,12 +383,36 @@ def construct_rules(chk):
     rule = "O19.5"
     fi = prog.method(TRANSLATOR, "construct")
     name = fi.qual
-    outs = Interp(prog, fi).run()
+    ARGSV = ("sym", "<value of __args__>")
+    KEYERR = exc_value("ext:builtins.KeyError", "no __args__")
+    runs = []
+    for present in (True, False):
+
+        def pop_hook(it, path, ct, node, present=present):
+            if ct[0] == "call" and ct[1][0] == "attr" and ct[1][2] == "pop" and ct[2] and ct[2][0] == ("const", "__args__"):
+                if present:
+                    return [("value", ARGSV)]
+                if len(ct[2]) >= 2:
+                    return [("value", ct[2][1])]
+                return [("raise", KEYERR)]
+            return None
+
+        def in_decide(it, path, term, present=present):
+            if term[0] == "cmp" and term[1] == "in" and term[2] == ("const", "__args__"):
+                return present
+            return None
+
+        runs.append((present, Interp(prog, fi, call_hook=pop_hook, decide=in_decide).run()))
+    outs = [o for _p, os_ in runs for o in os_]
     chk.count(len(outs))
     ok = True
-    for o in outs:
+    for present, os_ in runs:
+      for o in os_:
         if o.kind != "return":
-            chk.bad(rule, name, "construct ends by %s" % o.kind, node=fi.node, stmt="exit")
+            if o.kind == "raise" and o.value == KEYERR:
+                chk.bad(rule, name, "__args__ is popped without a default: a mapping without __args__ fails", node=fi.node, stmt="args-default")
+            else:
+                chk.bad(rule, name, "construct ends by %s" % o.kind, node=fi.node, stmt="exit")
             ok = False
             continue
         v = o.value
@@ -359,16 +432,17 @@ def construct_rules(chk):
         if not (fac[0] == "call" and fac[1][0] == "attr" and fac[1][2] == "load_name" and list(fac[2]) == [pops["__type__"]]):
             chk.bad(rule, name, "the factory called is %s, not the object named by __type__" % show(strip_sites(fac)), node=fi.node, stmt="factory")
             ok = False
-        if list(v[2]) != [("star", pops["__args__"])]:
+        pos = [strip_sites(a) for a in v[2]]
+        if present and pos != [("star", ARGSV)]:
             chk.bad(rule, name, "positional arguments are %s, not *__args__" % [show(a) for a in v[2]], node=fi.node, stmt="args")
+            ok = False
+        if not present and pos not in ([], [("star", ("list", ()))], [("star", ("tuple", ()))]):
+            chk.bad(rule, name, "without __args__ the factory gets the positional arguments %s (required: none)" % [show(a) for a in v[2]], node=fi.node, stmt="args-absent")
             ok = False
         stars = [val for k, val in v[3] if k is None]
         recv = pops["__type__"][1][1]
         if len(stars) != 1 or any(k is not None for k, _ in v[3]) or stars[0] != recv:
             chk.bad(rule, name, "keyword arguments are %s, not ** of the remaining items" % [show(s) for s in stars], node=fi.node, stmt="kwargs")
-            ok = False
-        if len(pops["__args__"][2]) < 2:
-            chk.bad(rule, name, "__args__ is popped without a default: a mapping without __args__ fails", node=fi.node, stmt="args-default")
             ok = False
         # the merged mapping contains the given mapping and the extra keywords
         if recv[0] == "dict":
@@ -425,3 +499,5 @@ def run(chk):
     from . import c05
 
     chk.guard("O5.3", c05.PIPELINE, c05.linking_loop, chk)
+    # "any failure to resolve or call a factory is reported": no swallowing handler around a factory call (shared with C05)
+    chk.guard("O5.4", "<config modules>", c05.narrow_try, chk)
